@@ -29,20 +29,20 @@ Wrappers(ss) ==
     <<Let("o", Node("obj", "", <<Id("k"), FnE(ss), Id("m"), B>>)), E(C)>>,
     <<E(Node("arr", "", <<FnE(ss), B>>))>>,
     <<If(Node("call", "", <<Grp(FnE(ss))>>), Blk(<<E(A)>>), E(B))>>,
-    <<Node("while", "", <<A, Blk(ss)>>), Ret(Nil)>> }
+    <<Node("while", "", <<A, Blk(ss)>>), E(B)>> }
 
 Siblings ==
   { <<Node("fdecl", "", <<Id("f"), PList(<<>>), Blk(<<E(A)>>)>>), Blk(<<Blk(<<E(B)>>)>>)>>,
     <<E(Node("call", "", <<Id("g"), FnE(<<E(A)>>)>>)), If(A, Blk(<<Blk(<<E(B)>>)>>), Nil), E(C)>>,
-    <<Blk(<<Blk(<<E(B)>>)>>), Node("fdecl", "", <<Id("f"), PList(<<>>), Blk(<<E(A)>>)>>), Blk(<<Blk(<<Ret(A)>>)>>)>>,
+    <<Blk(<<Blk(<<E(B)>>)>>), Node("fdecl", "", <<Id("f"), PList(<<>>), Blk(<<E(A)>>)>>), Blk(<<Blk(<<E(C)>>)>>)>>,
     <<Let("x", FnE(<<Blk(<<E(A)>>)>>)), Blk(<<Blk(<<Blk(<<E(B)>>)>>)>>)>> }
 BaseProgs == Siblings \cup {<<s>> : s \in Templates} \cup {<<E(x)>> : x \in UNION {Spines(k) : k \in 1..SpineDepth}}
                                       \cup {<<Let("x", x)>> : x \in UNION {Spines(k) : k \in 1..SpineDepth}}
 
-Init == inst \in Insts(MaxInst) /\ prog \in (IF NestableOnly THEN {<<E(A)>>, <<Ret(Nil)>>} ELSE BaseProgs) /\ nest = 0
-Next == /\ nest < NestDepth /\ prog \in {<<E(A)>>, <<Ret(A)>>} \cup UNION {Wrappers(q) : q \in {<<E(A)>>, <<Ret(A)>>}} \cup {prog}
+Init == inst \in Insts(MaxInst) /\ prog \in (IF NestableOnly THEN {<<E(A)>>} ELSE {q \in BaseProgs : TopOK(q)}) /\ nest = 0
+Next == /\ nest < NestDepth
         /\ nest' = nest + 1 /\ prog' \in Wrappers(prog) /\ UNCHANGED inst
-        /\ (nest = 0 => prog \in {<<E(A)>>, <<Ret(Nil)>>})
+        /\ (nest = 0 => prog = <<E(A)>>)
 Spec == Init /\ [][Next]_vars
 
 SC == SelectSeq(inst, LAMBDA x : x = "s")
